@@ -3,6 +3,7 @@ import Std.Do
 import Std.Tactic.Do
 import ErdosVerif.Lemmas.SimResidentInv
 import ErdosVerif.Lemmas.Heap
+import ErdosVerif.Lemmas.SimInv
 /-!
 Hoare triples (`Std.Do`, `mvcgen`) showing that the residency / exact-runtime invariant
 `AP RunOK` holds whenever a handler of the simulator model returns, and its weak form
@@ -37,6 +38,28 @@ elab "rs_hyps " n:ident " => " tac:tacticSeq : tactic => do
       return
     catch _ => s.restore
   throwError "rs_hyps: no hypothesis worked"
+
+end ErdosVerif.Tactic
+
+namespace ErdosVerif.Tactic
+open Lean
+
+/-- `rmvcgen [lemmas]`: `mvcgen [lemmas]` without the `@[spec]` lemmas of `Lemmas/SimInv.lean`
+(those are specifications of the same functions for the ledger / clock / graph invariant `Inv`;
+this file and the following ones prove specifications for the residency invariant, passed
+explicitly). `SimInv` is imported so that the auxiliary match lemmas `mvcgen` generates for the
+simulator's functions exist once. -/
+macro "rmvcgen" " [" ts:term,* "]" : tactic => do
+  let names : Array Name := #[`row_spec, `logE_spec, `liftE_spec, `liftTape_spec, `getGraph_spec, `setGraph_spec, `getTask_spec, `uniqueName_spec, `raiseTask_spec, `taskCall_spec, `startTask_spec, `mkEvent_spec, `addEvent_spec, `reheapify_spec, `removeEvent_spec, `editEvent_spec, `findEvent_spec, `nextOfType_spec, `placedTasks_spec, `popEvent_spec, `getPool_spec, `setPool_spec, `logUtilization_spec, `schedulable_spec, `releasable_spec, `notifyGraphCompletion_spec, `placementSkip_spec, `placementEvents_spec, `nextSchedulerEvent_spec, `handleSchedulerStart_spec, `handleSchedulerFinish_spec, `handleTaskCancel_spec, `handleTaskRelease_spec, `handleUpdateWorkload_spec, `handleTaskGraphRelease_spec, `raiseOutcome_spec, `raisePlace_spec, `finishRemove_spec, `finishRows_spec, `finishNotify_spec, `handleTaskFinished_spec, `placementNotReady_spec, `placementRow_spec, `placementPlace_spec, `handleTaskPlacement_spec, `handleProfile_spec, `handleEvent_spec, `advanceClock_spec, `step_spec, `iter_spec, `init_spec]
+  let ls : Array Syntax ← ts.getElems.mapM fun t => do
+    let l ← `(Lean.Parser.Tactic.simpLemma| $t:term)
+    pure l.raw
+  let es : Array Syntax ← names.mapM fun n => do
+    let e ← `(Lean.Parser.Tactic.simpErase| -$(mkIdent (`ErdosVerif.Model.Sim ++ n)))
+    pure e.raw
+  let sep : Syntax.TSepArray [`Lean.Parser.Tactic.simpErase, `Lean.Parser.Tactic.simpLemma] "," :=
+    ⟨mkSepArray (ls ++ es) (mkAtom ",")⟩
+  `(tactic| mvcgen [$sep,*])
 
 end ErdosVerif.Tactic
 
@@ -120,16 +143,16 @@ macro "frame_close" : tactic => `(tactic| first
 
 /-! ### primitives -/
 
-theorem row_spec (n : Int) (ex : List SEvent) (r : Row) : KeepsR n ex (row r) := by
-  mvcgen [row]
+theorem row_rspec (n : Int) (ex : List SEvent) (r : Row) : KeepsR n ex (row r) := by
+  rmvcgen [row]
   all_goals frame_close
 
-theorem liftE_spec {α} (n : Int) (ex : List SEvent) (e : Except SErr α) : KeepsR n ex (liftE e) := by
+theorem liftE_rspec {α} (n : Int) (ex : List SEvent) (e : Except SErr α) : KeepsR n ex (liftE e) := by
   unfold liftE; cases e <;> mvcgen
   all_goals frame_close
 
-theorem liftTape_spec {α} (n : Int) (ex : List SEvent) (x : TapeM α) : KeepsR n ex (liftTape x) := by
-  mvcgen [liftTape, liftE_spec]
+theorem liftTape_rspec {α} (n : Int) (ex : List SEvent) (x : TapeM α) : KeepsR n ex (liftTape x) := by
+  rmvcgen [liftTape, liftE_rspec]
   all_goals frame_close
 
 
@@ -161,22 +184,22 @@ theorem log_same_ext (l : Array LogE) :
   ⟨[], by simp, by simp⟩
 
 /-- Appending a non-`.finish` entry to the history keeps the invariant. -/
-theorem logE_spec (n : Int) (ex : List SEvent) (e : LogE) (he : LogE.isFinish e = false) : KeepsR n ex (logE e) := by
-  mvcgen [logE]
+theorem logE_rspec (n : Int) (ex : List SEvent) (e : LogE) (he : LogE.isFinish e = false) : KeepsR n ex (logE e) := by
+  rmvcgen [logE]
   rs_hyps h => exact ⟨AP.step _ _ h.1 rfl (TRel.refl _) rfl (log_push_ext _ e he) (fun _ h' _ => h') (fun _ h' => h')
     (Nat.le_refl _) rfl rfl h.1.loader, h.2⟩
 
-theorem raiseTask_spec (n : Int) (ex : List SEvent) (e : Option SErr) : KeepsR n ex (raiseTask e) := by
+theorem raiseTask_rspec (n : Int) (ex : List SEvent) (e : Option SErr) : KeepsR n ex (raiseTask e) := by
   unfold raiseTask; cases e <;> mvcgen
   all_goals frame_close
 
-theorem raiseOutcome_spec (n : Int) (ex : List SEvent) (o : Outcome) : KeepsR n ex (raiseOutcome o) := by
+theorem raiseOutcome_rspec (n : Int) (ex : List SEvent) (o : Outcome) : KeepsR n ex (raiseOutcome o) := by
   unfold raiseOutcome
   cases o with
   | ok => mvcgen; all_goals frame_close
   | raised e => cases e <;> mvcgen <;> frame_close
 
-theorem raisePlace_spec (n : Int) (ex : List SEvent) (r : Except PyErr Bool) :
+theorem raisePlace_rspec (n : Int) (ex : List SEvent) (r : Except PyErr Bool) :
     ⦃RA n ex⦄ raisePlace r ⦃post⟨fun b s => ⌜(AP RunOK ex s ∧ s.now = n) ∧ r = .ok b⌝, fun _ s => ⌜WInv s⌝⟩⦄ := by
   unfold raisePlace
   cases r with
@@ -204,11 +227,11 @@ macro "ap_step" : tactic => `(tactic|
    refine ⟨AP.step _ _ h.1 ?_ ?_ ?_ ?_ ?_ ?_ ?_ ?_ ?_ ?_, h.2⟩ <;> ap_side))
 
 /-- A fresh event: only the event counter moves. -/
-theorem mkEvent_spec (n : Int) (ex : List SEvent) (a : Nat) (b : Int) (c : Option TaskId) (d : Option PlacementS)
+theorem mkEvent_rspec (n : Int) (ex : List SEvent) (a : Nat) (b : Int) (c : Option TaskId) (d : Option PlacementS)
     (e : Option Nat) :
     ⦃RA n ex⦄ mkEvent a b c d e
     ⦃post⟨fun r s => ⌜(AP RunOK ex s ∧ s.now = n) ∧ r.ev.etype = a ∧ r.ev.time = b ∧ r.tid = c⌝, fun _ s => ⌜WInv s⌝⟩⦄ := by
-  mvcgen [mkEvent, uniqueName, getGraph, getTask]
+  rmvcgen [mkEvent, uniqueName, getGraph, getTask]
   all_goals first
     | frame_close
     | (refine ⟨?_, trivial, trivial, by first | assumption | rfl⟩; ap_step)
@@ -238,19 +261,19 @@ theorem mem_queue_remove (q : Array SEvent) (ex : List SEvent) (i : Nat) :
   · exact List.mem_append_right _ h1
 
 /-- Queueing an event that is not a TASK_FINISHED. -/
-theorem addEvent_spec (n : Int) (ex : List SEvent) (e : SEvent) (he : e.ev.etype ≠ ET.taskFinished) :
+theorem addEvent_rspec (n : Int) (ex : List SEvent) (e : SEvent) (he : e.ev.etype ≠ ET.taskFinished) :
     KeepsR n ex (addEvent e) := by
-  mvcgen [addEvent]
+  rmvcgen [addEvent]
   ap_step
   exact mem_queue_push _ _ _ he
 
-theorem reheapify_spec (n : Int) (ex : List SEvent) : KeepsR n ex reheapify := by
-  mvcgen [reheapify]
+theorem reheapify_rspec (n : Int) (ex : List SEvent) : KeepsR n ex reheapify := by
+  rmvcgen [reheapify]
   ap_step
   exact mem_queue_heapify _ _
 
-theorem removeEvent_spec (n : Int) (ex : List SEvent) (eid : Nat) : KeepsR n ex (removeEvent eid) := by
-  mvcgen [removeEvent]
+theorem removeEvent_rspec (n : Int) (ex : List SEvent) (eid : Nat) : KeepsR n ex (removeEvent eid) := by
+  rmvcgen [removeEvent]
   all_goals first
     | frame_close
     | (ap_step; exact mem_queue_remove _ _ _)
@@ -276,11 +299,11 @@ theorem mem_queue_edit {ex : List SEvent} {s : SimS} (h1 : AP RunOK ex s) (eid :
   · exact List.mem_append_right _ h4
 
 /-- In-place edit of the event(s) with a kept id: never a TASK_FINISHED event. -/
-theorem editEvent_spec (n : Int) (ex : List SEvent) (eid : Nat) (f : SEvent → SEvent)
+theorem editEvent_rspec (n : Int) (ex : List SEvent) (eid : Nat) (f : SEvent → SEvent)
     (hf : ∀ e, (f e).ev.etype = e.ev.etype) :
     ⦃fun s => ⌜(AP RunOK ex s ∧ s.now = n) ∧ EF s.future s.nextSched eid⌝⦄ editEvent eid f
     ⦃post⟨fun _ => RA n ex, fun _ s => ⌜WInv s⌝⟩⦄ := by
-  mvcgen [editEvent]
+  rmvcgen [editEvent]
   rename_i s h _
   obtain ⟨h12, h3⟩ := h
   ap_step
@@ -302,9 +325,9 @@ theorem AP.quietCall {ex : List SEvent} {n : Int} (s s' : SimS) (t : TaskId) (c 
 
 /-- `release`, `schedule`, `unschedule` through the simulator: the task is not RUNNING
 before (or the call is refused) and not RUNNING after. -/
-theorem taskCall_spec (n : Int) (ex : List SEvent) (t : TaskId) (c : TaskCall) (hc : c.isQuiet = true) :
+theorem taskCall_rspec (n : Int) (ex : List SEvent) (t : TaskId) (c : TaskCall) (hc : c.isQuiet = true) :
     KeepsR n ex (taskCall t c) := by
-  mvcgen [taskCall, getGraph, setGraph, raiseTask]
+  rmvcgen [taskCall, getGraph, setGraph, raiseTask]
   all_goals first
     | frame_close
     | (refine AP.quietCall _ _ t c _ _ ?_ ?_ ?_ hc rfl <;> assumption)
@@ -374,13 +397,13 @@ theorem AP.efAdd {ex ex' : List SEvent} (s s' : SimS) (h : AP RunOK ex s) (x0 : 
 
 /-- A fresh event: only the event counter moves. The post-condition records that the id
 is below the counter and above the ids of all TASK_FINISHED events. -/
-theorem mkEvent_spec' (n : Int) (ex : List SEvent) (a : Nat) (b : Int) (c : Option TaskId) (d : Option PlacementS)
+theorem mkEvent_rspec' (n : Int) (ex : List SEvent) (a : Nat) (b : Int) (c : Option TaskId) (d : Option PlacementS)
     (e : Option Nat) :
     ⦃RA n ex⦄ mkEvent a b c d e
     ⦃post⟨fun r s => ⌜(AP RunOK ex s ∧ s.now = n) ∧ r.ev.etype = a ∧ r.ev.time = b ∧ r.tid = c ∧
         r.ev.eid < s.nextEid ∧ ∀ e' ∈ s.queue.toList ++ ex, e'.ev.etype = ET.taskFinished → e'.ev.eid < r.ev.eid⌝,
       fun _ s => ⌜WInv s⌝⟩⦄ := by
-  mvcgen [mkEvent, uniqueName, getGraph, getTask]
+  rmvcgen [mkEvent, uniqueName, getGraph, getTask]
   all_goals first
     | frame_close
     | (refine ⟨?_, trivial, trivial, by first | assumption | rfl, Nat.lt_succ_self _, ?_⟩
